@@ -62,14 +62,35 @@ def discipline_obligations(rep):
     if fe is None:
         probs.append('generate_foreach not found')
     else:
-        uses = [n for n in core.walk_own(fe) if isinstance(n, ast.Name) and n.id == 'loop_var' and isinstance(n.ctx, ast.Load)]
+        # the local that holds the loop variable's name: assigned from self._get_loop_var()
+        lvs = [t.id for a_ in core.walk_own(fe) if isinstance(a_, ast.Assign) and ast.unparse(a_.value) == 'self._get_loop_var()'
+               for t in a_.targets if isinstance(t, ast.Name)]
+        parents = {}
+        for n in ast.walk(fe):
+            for c in ast.iter_child_nodes(n):
+                parents[id(c)] = n
+        uses = [n for n in core.walk_own(fe) if isinstance(n, ast.Name) and n.id in lvs and isinstance(n.ctx, ast.Load)]
         for u in uses:
-            # must be inside the tuple formatted into "for %s in %s:"
-            src = ast.get_source_segment(mod.text, fe) or ''
-            if not re.search(r'"for %s in %s:"\s*%\s*\(loop_var\s*,', src):
+            # must be formatted into the text of the for header ("for %s in %s:" % (..) / f"for {..} in ..:" / "for " + ..)
+            p_, ok = parents.get(id(u)), False
+            while p_ is not None and not isinstance(p_, ast.stmt):
+                if isinstance(p_, ast.BinOp) and isinstance(p_.op, ast.Mod) and isinstance(p_.left, ast.Constant) \
+                        and str(p_.left.value).startswith('for '):
+                    ok = True
+                if isinstance(p_, ast.JoinedStr) and p_.values and isinstance(p_.values[0], ast.Constant) \
+                        and str(p_.values[0].value).startswith('for '):
+                    ok = True
+                if isinstance(p_, ast.BinOp) and isinstance(p_.op, ast.Add):
+                    lm = p_
+                    while isinstance(lm, ast.BinOp):
+                        lm = lm.left
+                    if isinstance(lm, ast.Constant) and str(lm.value).startswith('for '):
+                        ok = True
+                p_ = parents.get(id(p_))
+            if not ok:
                 probs.append('loop variable used outside the for header (line %d)' % u.lineno)
-        if len(uses) != 1:
-            probs.append('loop_var read %d times (expected once, in the for header)' % len(uses))
+        if len(lvs) != 1 or len(uses) != 1:
+            probs.append('the loop variable name is read %d times (expected once, in the for header)' % len(uses))
     rep.add_checked('yp_generator.YPPythonCodeGenerator.generate_foreach.template.T3.loop_variable_only_in_header', not probs,
                     '; '.join(probs), 'ast', function='yp_generator.YPPythonCodeGenerator.generate_foreach', witness=probs or None)
     # T4: YPCodeCall function names are literals
